@@ -232,7 +232,15 @@ def _eval(
                 "Already in dds.eval() context. Nested eval contexts are not supported",
                 DDSErrorCode.EVAL_IN_EVAL,
             )
-        key = None if path is None else _eval_ctx.requested_paths[path]
+        if path not in _eval_ctx.requested_paths:
+            # A keep that the analysis of this evaluation did not see (for instance made by code
+            # of a module that is not accepted): it has no signature, it cannot be served.
+            raise DDSException(
+                f"The path {path} is kept during this evaluation but it was not found when the "
+                f"evaluation was analysed. A function that calls dds.keep must be defined in "
+                f"an accepted module."
+            )
+        key = _eval_ctx.requested_paths[path]
         t = _time()
         if key is not None and _store().has_blob(key):
             _logger.debug(f"_eval:Return cached {path} from {key}")
